@@ -62,9 +62,31 @@ open QV QV.Writer QV.ServerSafety
   itself on 100 % of the generated sessions (model column and, on the implementation's octets, spec
   column of `waudit`). -/
 
+/- The statement as first written (kept for the record):
+
+    def C12_full : Prop :=
+      ∀ (buf : Bytes) (limit : Nat) (mode : CMode) (s : State) (ops : List Op) (mac : Option (List UInt8)),
+        Writer.new buf limit = .ok s → Respects { w := { s with mode := mode } } ops →
+        MacLenOK (fun _ _ => mac.getD []) →
+        let r := Driver.runModel { w := { s with mode := mode } } ops mac true
+        ∃ m, r.msg = some m ∧
+          Spec.Message.checkSession buf.size limit (Driver.toSpecMode mode) (ops.map Driver.toSpecOp)
+            r.statuses (r.pre ++ [m]) r.mac = "ok"
+
+   **Correction of the statement.** As written it quantifies over calls whose arguments are not values
+   of the Rust API's types: the model takes natural numbers, so `set_id 70000`, a 17-bit type or
+   class, a payload size above 65535 or an empty `RdataSet` are calls of the model that the Rust
+   writer cannot receive, and for them the model (which truncates to the field width, as the octets
+   must) and the abstract specification (which records the number given) disagree — `checkSession`
+   reports a difference that no real session can show. The statement therefore needs the hypothesis
+   that every call is typed (`ApiTyped`: `Op.Typed`, the `u16` bounds of `set_edns` / `set_tsig`, and
+   non-empty RRsets). It also needs the limits to be at most 65535 (the largest DNS message; RDLENGTH
+   and the TCP length prefix are 16-bit): (d) is proved for finished messages of at most 65535
+   octets. The driver generates typed calls and limits below 65536 only. -/
 def C12_full : Prop :=
   ∀ (buf : Bytes) (limit : Nat) (mode : CMode) (s : State) (ops : List Op) (mac : Option (List UInt8)),
     Writer.new buf limit = .ok s → Respects { w := { s with mode := mode } } ops →
+    (∀ op ∈ ops, ApiTyped op) → limit ≤ 65535 → (∀ v, Op.setLimit v ∈ ops → v ≤ 65535) →
     MacLenOK (fun _ _ => mac.getD []) →
     let r := Driver.runModel { w := { s with mode := mode } } ops mac true
     ∃ m, r.msg = some m ∧
@@ -566,6 +588,7 @@ theorem C12_walk_reaches_final_check_partial (macFn : Tsig → List UInt8 → Li
       aF.hdr = d.msg.header ∧ aF.hdr.z = 0 ∧
       AbsContent aF (bodyRun {} ops (run { w := { s0 with mode := mode } } ops).2)
         (mrun { w := { s0 with mode := mode } } {} ops) ∧
+      AbsCfg (run { w := { s0 with mode := mode } } ops).1.w aF ∧
       Spec.Message.walk false
           { mode := Driver.toSpecMode mode, buflen := buf.size, limit := min limit buf.size }
           (ops.map Driver.toSpecOp)
